@@ -67,7 +67,7 @@ func Run(o Opts) (*Result, error) {
 		o.Workers = 8
 	}
 	if o.Timeout == 0 {
-		o.Timeout = 10 * time.Minute
+		o.Timeout = 30 * time.Minute // generous: a timeout is a broken run (exit 2), and loaded machines run TLC 3-4x slower
 	}
 	if o.HeapGB == 0 {
 		o.HeapGB = 8
